@@ -29,6 +29,18 @@ func putWidth(name string) (int64, bool) {
 	return 0, false
 }
 
+func appendWidth(name string) (int64, bool) {
+	switch name {
+	case "AppendUint16":
+		return 2, true
+	case "AppendUint32":
+		return 4, true
+	case "AppendUint64":
+		return 8, true
+	}
+	return 0, false
+}
+
 func getWidth(name string) (int64, bool) {
 	switch name {
 	case "Uint16":
@@ -109,6 +121,47 @@ func (in *Interp) call(st *State, call *ast.CallExpr) Val {
 				in.note(call.Pos(), "%s into unknown buffer %s", name, in.render(st, call.Args[0]))
 			}
 			return UnkV{}
+		}
+		if w, ok := appendWidth(name); ok && len(call.Args) == 2 {
+			// binary.BigEndian.AppendUintN(b, v): b extended by the N-byte value
+			base := in.eval(st, call.Args[0])
+			var bb *BufObj
+			var bview BufV
+			switch bvv := base.(type) {
+			case BufV:
+				bview = bvv
+				bb = st.bufs[bvv.ID]
+			case NilV:
+				bb = &BufObj{Origin: "nil", Len: Const(0), Extent: Const(0)}
+			}
+			if bb == nil {
+				in.eval(st, call.Args[1])
+				in.note(call.Pos(), "%s onto unknown buffer %s", name, in.render(st, call.Args[0]))
+				return in.opaqueOf(st, "append", in.info.TypeOf(call))
+			}
+			baseLen := bb.Len
+			if bview.Hi != nil {
+				baseLen = bview.Hi
+			}
+			nb := &BufObj{Origin: "append", Len: baseLen.AddC(w), Extent: baseLen.AddC(w), Pos: call.Pos(), Src: bb.Src}
+			if bb.Origin == "enc" && len(bb.Recs) == 0 {
+				nb.Recs = append(nb.Recs, &Rec{Off: Const(0), W: baseLen, Kind: "child", Src: "enc(" + bb.Src + ")", Pos: bb.Pos, Guard: in.guard(), Fn: in.fi.Key, Snap: bb.Snap})
+				nb.Src = ""
+			} else if bb.Origin == "field" || bb.Origin == "arg" {
+				nb.Recs = append(nb.Recs, &Rec{Off: Const(0), W: baseLen, Kind: "bytes", Src: bb.Src, Pos: call.Pos(), Guard: in.guard()})
+				nb.SrcType = "field-append"
+			} else {
+				nb.Recs = append(nb.Recs, bb.Recs...)
+			}
+			rec := &Rec{Off: baseLen, W: Const(w), Kind: "int", Src: in.operand(st, call.Args[1]), Order: order, Expr: call.Args[1], Pos: call.Pos(), Guard: in.guard(), Fn: in.fi.Key}
+			if iv, ok := in.eval(st, call.Args[1]).(IntV); ok {
+				rec.Val = iv.T
+			}
+			if len(in.loops) > 0 {
+				rec.Loop = in.loops[len(in.loops)-1]
+			}
+			nb.Recs = append(nb.Recs, rec)
+			return in.newBuf(st, nb)
 		}
 		if w, ok := getWidth(name); ok && len(call.Args) == 1 {
 			src := in.eval(st, call.Args[0])
